@@ -166,7 +166,7 @@ Definition bb_instance (k : rctx) (d : bbdef) (C : circuit * gmap string bbdef) 
   end.
 
 Definition find_bb (k : rctx) (mn : string) : option bbdef :=
-  last (filter (λ d, bb_name d = mn) (k_bbs k)).
+  find_def (k_bbs k) mn.
 
 Definition c_item (k : rctx) (st : rstate) (it : item) : res rstate :=
   match it with
